@@ -1,3 +1,4 @@
+import copy
 import logging
 import sys
 import traceback
@@ -87,7 +88,7 @@ class RPHandler(object):
                 self.hash_seed = as_bytes(rndstr(32))
 
             if client_configs is None:
-                self.client_configs = DEFAULT_CLIENT_CONFIGS
+                self.client_configs = copy.deepcopy(DEFAULT_CLIENT_CONFIGS)
                 for param in ["client_type", "preference", "add_ons"]:
                     val = kwargs.get(param, None)
                     if val:
@@ -189,7 +190,8 @@ class RPHandler(object):
         try:
             _cnf = self.pick_config(issuer)
         except KeyError:
-            _cnf = self.pick_config("")
+            # A copy of the template, it is completed for this issuer
+            _cnf = copy.deepcopy(self.pick_config(""))
             _cnf["issuer"] = issuer
 
         try:
